@@ -25,14 +25,17 @@ BAD_SCAL = ["u_x", "u_xy", "w_0", "u_x1", "w_1_y", "v_y", "u_xx"]   # names cont
 CONSTS = ["alpha", "kappa", "c0"]
 SYMS = ["t", "eps"]
 FUNCS1 = ["sin", "cos", "exp", "log", "Abs", "tan"]
+MAP_NAMES = ["M", "N", "F1", "Phi"]
+PB_SCAL, PB_VEC = ["g", "h"], ["G", "H"]      # pulled-back functions: names used nowhere else in a kernel
+IB_NAMES, IDX_NAMES = ["A", "K"], ["i", "j"]
 
 
 # ================================================================== generation
 def has_terminal(t):
-    if t["k"] in ("chain", "vec"):
+    if t["k"] in ("chain", "vec", "geo", "pb", "pidx"):
         return True
     kids_ = t.get("args", []) + t.get("items", []) + ([t["b"], t["e"]] if t["k"] == "pow" else []) + \
-        [a for r in t.get("rows", []) for a in r]
+        [a for r in t.get("rows", []) for a in r] + ([t["e"]] if t["k"] == "side" else [])
     return any(has_terminal(a) for a in kids_)
 
 
@@ -40,6 +43,7 @@ class Gen:
     def __init__(self, rng, tier):
         self.rng = rng
         self.maxorder = 6 if tier == "quick" else 10
+        self.sides = None
 
     def funcs(self, stream):
         r = self.rng
@@ -57,11 +61,86 @@ class Gen:
                 fs.append({"name": n, "vector": False})
         return fs
 
-    def atom(self, funcs, dim):
+    def atom(self, funcs, dim, sides=None):
         f = self.rng.choice(funcs)
         if f["vector"]:
-            return {"t": "c", "name": f["name"], "i": self.rng.randrange(dim)}
-        return {"t": "s", "name": f["name"]}
+            a = {"t": "c", "name": f["name"], "i": self.rng.randrange(dim)}
+        else:
+            a = {"t": "s", "name": f["name"]}
+        # one side of the interface per function and kernel (minus(u) and u share a symbol)
+        sd = (sides or {}).get(f["name"])
+        return a if sd is None else {"t": "side", "plus": sd == "plus", "a": a}
+
+    def geo_cast(self):
+        """the mappings of a kernel, chosen so that all names SymbolicExpr derives from them are different:
+        one plain mapping, or the two sides of an interface and its InterfaceMapping"""
+        r = self.rng
+        if r.random() < 0.6:
+            m = {"name": r.choice(MAP_NAMES), "side": None}
+            return {"comp": [m], "any": [m], "wvol": [m], "pb": m["name"]}
+        a, b = r.sample(MAP_NAMES, 2)
+        ma, mb, im = {"name": a, "side": "minus"}, {"name": b, "side": "plus"}, {"iface": [a, b]}
+        return {"comp": [ma, mb], "any": [ma, mb, im], "wvol": [im, mb], "pb": None}
+
+    def geo_top(self, st):
+        """SymbolicWeightedVolume and PullBack are not commutative but their symbols are: sympy's automatic
+        rewriting (distribution of a numeric factor, expansion of a power of a product) would happen only AFTER
+        the translation.  They are therefore used as a whole term / factor / item at the top of a kernel only
+        (integrand * weighted volume)."""
+        r = self.rng
+        cast = st["geo"]
+        if cast["pb"] and r.random() < 0.4:
+            vec = st["dim"] > 1 and r.random() < 0.3
+            return {"k": "pb", "name": r.choice(PB_VEC if vec else PB_SCAL), "vector": vec,
+                    "kind": "h1" if vec or r.random() < 0.5 else "l2", "map": cast["pb"]}
+        return {"k": "geo", "g": "wvol", "map": r.choice(cast["wvol"])}
+
+    def at_top(self, kernel, f):
+        """apply f to the kernel / to one item or entry of a container kernel"""
+        r = self.rng
+        if kernel["k"] in ("tuple", "seq"):
+            items = list(kernel["items"])
+            i = r.randrange(len(items))
+            items[i] = f(items[i])
+            return dict(kernel, items=items)
+        if kernel["k"] == "matrix":
+            rows = [list(row) for row in kernel["rows"]]
+            i, j = r.randrange(len(rows)), r.randrange(len(rows[0]))
+            rows[i][j] = f(rows[i][j])
+            return dict(kernel, rows=rows)
+        return f(kernel)
+
+    def geo_leaf(self, st):
+        """a leaf of the geometry stream: a chain over a mapping component, a geometry atom, a plain sympy
+        atom that is passed through, a pull-back"""
+        r = self.rng
+        cast = st["geo"]
+        x = r.random()
+        if x < 0.45:
+            for _ in range(20):
+                kind = "log" if r.random() < 0.85 else "phys"
+                c = {"k": "chain", "ops": self.ops(st["dim"], kind, r.choice([0, 1, 1, 1, 2, 2, 3])),
+                     "atom": {"t": "m", "map": r.choice(cast["comp"]), "i": r.randrange(st["dim"])}, "eval": r.random() < 0.5}
+                key = (json.dumps(c["atom"], sort_keys=True), tuple(sorted(c["ops"])))
+                if key not in st["seen"]:
+                    st["seen"].add(key)
+                    return c
+        if x < 0.70:
+            g = r.choice(["map", "det", "detJ", "detJ"])
+            return {"k": "geo", "g": g, "map": r.choice(cast["any"])}
+        y = r.random()
+        if y < 0.25:
+            return {"k": "imag"}
+        if y < 0.45:
+            return {"k": "ibase", "name": "n", "normal": True} if r.random() < 0.5 else \
+                {"k": "ibase", "name": r.choice(IB_NAMES), "normal": False}
+        if y < 0.55:
+            return {"k": "idx", "name": r.choice(IDX_NAMES)}
+        if y < 0.85:
+            how = r.choice(["int", "idx", "normal"])
+            return {"k": "pidx", "base": "n" if how == "normal" else r.choice(IB_NAMES), "how": how,
+                    "idx": r.choice(IDX_NAMES) if how == "idx" else str(r.randrange(st["dim"]))}
+        return {"k": "sym", "name": r.choice(SYMS)}
 
     def ops(self, dim, kind, n):
         r = self.rng
@@ -81,7 +160,7 @@ class Gen:
     def chain(self, funcs, dim, kind=None):
         r = self.rng
         kind = kind or r.choice(["phys", "log"])
-        return {"k": "chain", "ops": self.ops(dim, kind, self.order()), "atom": self.atom(funcs, dim),
+        return {"k": "chain", "ops": self.ops(dim, kind, self.order()), "atom": self.atom(funcs, dim, self.sides),
                 "eval": r.random() < 0.5}
 
     def chain_leaf(self, st):
@@ -100,6 +179,8 @@ class Gen:
         """Numbers are positive (signs only enter as the factor -1 of a term that contains a chain), so that no
         sub-kernel can cancel to 0 and no log(0), 0**-1, ... (zoo / nan) is ever generated."""
         r = self.rng
+        if st.get("geo") and r.random() < 0.4:
+            return self.geo_leaf(st)
         x = r.random()
         if x < 0.72:
             c = self.chain_leaf(st)
@@ -119,7 +200,7 @@ class Gen:
             return t
         c = self.chain_leaf(st)
         if c is None:
-            c = {"k": "chain", "ops": [], "atom": self.atom(st["funcs"], st["dim"]), "eval": False}
+            c = {"k": "chain", "ops": [], "atom": self.atom(st["funcs"], st["dim"], self.sides), "eval": False}
         return {"k": "add", "args": [t, c]} if t["k"] != "num" or self.rng.random() < 0.5 else c
 
     def scalar(self, st, depth, nosign=False):
@@ -170,18 +251,29 @@ class Gen:
     def case(self, stream):
         r = self.rng
         dim = r.choice([1, 2, 2, 3, 3])
-        funcs = self.funcs(stream)
+        base = {"geometry": "general", "untranslatable": "general", "geo-collide": "arith"}.get(stream, stream)
+        funcs = self.funcs(base)
         feat = {"arith": [], "general": ["fn", "powexp", "matrix"], "mixed": ["fn"], "unhygienic": [],
-                "vector": ["fn", "matrix"], "pyseq": []}[stream]
+                "vector": ["fn", "matrix"], "pyseq": [], "geometry": ["fn", "powexp", "matrix", "side"],
+                "untranslatable": ["fn"], "geo-collide": []}[stream]
         kinds = ["phys", "log"] if stream != "mixed" else ["phys", "log", "mixed", "mixed"]
         depth = r.randint(1, 3) if self.maxorder == 6 else r.randint(1, 4)
         seen = set()
+        self.sides = None
+        geo = None
+        if stream in ("geometry", "untranslatable"):
+            # every function lives on one side of the interface (or on none) throughout the kernel
+            self.sides = {f["name"]: r.choice([None, None, "minus", "plus"]) for f in funcs}
+            geo = self.geo_cast()
         pool = self.distinct_chains(funcs, dim, r.randint(2, 7), kinds, seen)
-        st = {"pool": list(pool), "feat": feat, "funcs": funcs, "dim": dim, "kinds": kinds, "seen": seen}
+        st = {"pool": list(pool), "feat": feat, "funcs": funcs, "dim": dim, "kinds": kinds, "seen": seen, "geo": geo}
         shape = r.random()
         if stream == "pyseq":
-            kernel = {"k": "seq", "py": r.choice(["list", "tuple"]),
-                      "items": [self.scalar(st, depth - 1) for _ in range(r.randint(1, 3))]}
+            items = [self.scalar(st, depth - 1) for _ in range(r.randint(1, 3))]
+            # bare python numbers are no sympy objects: find_partial_derivatives has nothing to look into
+            for _ in range(r.choice([0, 0, 1, 2])):
+                items.insert(r.randrange(len(items) + 1), {"k": "pynum", "v": r.choice([2, 3, 5, 7])})
+            kernel = {"k": "seq", "py": r.choice(["list", "tuple"]), "items": items}
         elif "matrix" in feat and shape < 0.35:
             nr, nc = r.randint(1, 3), r.randint(1, 3)
             kernel = {"k": "matrix", "imm": r.random() < 0.5,
@@ -193,12 +285,25 @@ class Gen:
         if stream == "vector" and r.random() < 0.3:
             v = r.choice([f for f in funcs if f["vector"]])
             kernel = {"k": "tuple", "items": [kernel, {"k": "vec", "name": v["name"]}]}
+        if geo and r.random() < 0.5:
+            top = self.geo_top(st)
+            kernel = self.at_top(kernel, lambda e: {"k": r.choice(["add", "mul"]), "args": [e, top]})
+        if geo and r.random() < 0.3:
+            # the restriction of a whole (canonical) entry to one side: the constructor distributes it over sums
+            # and products, the operator ends up around powers, functions and atoms
+            pl = r.random() < 0.5
+            kernel = self.at_top(kernel, lambda e: {"k": "side", "plus": pl, "e": e})
+        if stream == "untranslatable":
+            kernel = self.spoil(st, kernel)
         # chains for the name oracle: random ones, plus re-orderings of chains already used (same identity)
         nch = [self.chain(funcs, dim, r.choice(kinds)) for _ in range(r.randint(2, 5))]
         for c in r.sample(pool, min(len(pool), 3)):
             o = list(c["ops"])
             r.shuffle(o)
             nch.append({"k": "chain", "ops": o, "atom": c["atom"], "eval": r.random() < 0.5})
+        if geo:
+            nch += [self.geo_leaf(st) for _ in range(r.randint(1, 3))] + [{"k": "geo", "g": "wvol", "map": r.choice(geo["wvol"])}]
+            nch = [c for c in nch if c["k"] in ("chain", "geo", "pidx")]
         if stream == "unhygienic":
             # the planted look-alikes: dx(u) / function "u_x", w[0] / function "w_0", ...
             names = {f["name"] for f in funcs}
@@ -209,11 +314,103 @@ class Gen:
                 if nm in names and (c[1]["t"] == "s" or c[1]["i"] < dim):
                     nch.append({"k": "chain", "ops": [], "atom": {"t": "s", "name": nm}})
                     nch.append({"k": "chain", "ops": c[0], "atom": c[1]})
+        if stream == "geo-collide":
+            funcs, kernel, extra = self.planted_geometry(funcs, dim, kernel)
+            nch += extra
+        self.sides = None
         return {"stream": stream, "dim": dim, "funcs": funcs, "kernel": kernel, "name_chains": nch}
 
+    def spoil(self, st, kernel):
+        """put ONE object into the kernel that SymbolicExpr cannot translate"""
+        r = self.rng
+        dim = st["dim"]
+        what = r.choice(["index", "index", "derivative", "bool", "domain", "pyobj", "pb"])
+        if what == "pb" and dim == 1:
+            what = "index"
+        if what == "index":
+            n = r.choice([0, 0, 1, 2])
+            bad = {"k": "chain", "ops": self.ops(dim, "log", n), "eval": r.random() < 0.5,
+                   "atom": {"t": "m", "map": r.choice(st["geo"]["comp"]), "i": r.choice([3, 3, 4, 7])}}
+        elif what == "derivative":
+            bad = {"k": "opaque", "what": "derivative"}
+        elif what == "pb":
+            bad = {"k": "pb", "name": r.choice(PB_VEC), "vector": True, "kind": r.choice(["hcurl", "hdiv"]),
+                   "map": r.choice(MAP_NAMES)}
+        else:
+            bad = {"k": "opaque", "what": {"bool": "bool", "domain": "domain", "pyobj": r.choice(["str", "none"])}[what]}
+        if what in ("bool", "domain", "pyobj"):
+            # no sympy expressions: only inside containers (python objects only inside python containers)
+            items = [kernel] if kernel["k"] not in ("tuple", "seq") else list(kernel["items"])
+            items.insert(r.randrange(len(items) + 1), bad)
+            if what == "pyobj" and r.random() < 0.5:
+                items.insert(r.randrange(len(items) + 1), {"k": "pynum", "v": r.choice([2, 3])})
+            k = "seq" if what == "pyobj" or r.random() < 0.4 else "tuple"
+            return {"k": k, "py": r.choice(["list", "tuple"]), "items": items} if k == "seq" else {"k": "tuple", "items": items}
+        if kernel["k"] in ("tuple", "seq"):
+            items = list(kernel["items"])
+            items.insert(r.randrange(len(items) + 1), bad)
+            return dict(kernel, items=items)
+        if kernel["k"] == "matrix":
+            rows = [list(row) for row in kernel["rows"]]
+            i, j = r.randrange(len(rows)), r.randrange(len(rows[0]))
+            rows[i][j] = {"k": "add", "args": [rows[i][j], bad]}
+            return dict(kernel, rows=rows)
+        x = r.random()
+        if x < 0.4:
+            return {"k": "add", "args": [kernel, bad]}
+        if x < 0.7:
+            return {"k": "mul", "args": [bad, kernel]}
+        if x < 0.85:
+            return {"k": "add", "args": [kernel, {"k": "fn", "name": r.choice(FUNCS1), "args": [bad]}]}
+        return {"k": "add", "args": [kernel, {"k": "pow", "b": {"k": "num", "v": "2"}, "e": bad}]}
 
-STREAMS = ["arith", "general", "mixed", "unhygienic", "vector", "pyseq"]
-WEIGHTS = [0.34, 0.26, 0.10, 0.08, 0.16, 0.06]
+    def planted_geometry(self, funcs, dim, kernel):
+        """the look-alikes among the geometry atoms and the atoms restricted to one side of an interface"""
+        r = self.rng
+        funcs = list(funcs)
+        have = {f["name"] for f in funcs}
+        for n in ("u", "x", "y", "M", "det_M", "wvol_M"):
+            if n not in have:
+                funcs.append({"name": n, "vector": False})
+        M, N = {"name": "M", "side": None}, {"name": "N", "side": None}
+        Mm, Np, IM = {"name": "M", "side": "minus"}, {"name": "N", "side": "plus"}, {"iface": ["M", "N"]}
+        u = {"t": "s", "name": "u"}
+
+        def ch(ops, a):
+            return {"k": "chain", "ops": ops, "atom": a, "eval": r.random() < 0.5}
+
+        def fn(n):
+            return ch([], {"t": "s", "name": n})
+
+        def side(p, a):
+            return {"t": "side", "plus": p, "a": a}
+
+        def mc(m, i):
+            return {"t": "m", "map": m, "i": i}
+        groups = [
+            [ch([], mc(M, 0)), ch([], mc(N, 0))],                                   # the mapping's name is dropped
+            [ch(["dx1"], mc(M, 0)), ch(["dx1"], mc(Mm, 0))],
+            [ch([], mc(M, 0)), fn("x")], [ch(["dx1"], mc(M, 0)), ch(["dx1"], {"t": "s", "name": "x"})],
+            [ch([], mc(M, 1 if dim > 1 else 0)), {"k": "sym", "name": "y" if dim > 1 else "x"}],   # coordinate symbol
+            [ch([], side(False, u)), ch([], side(True, u)), ch([], u)],             # the side is dropped
+            [ch(["dx"], side(False, u)), ch(["dx"], u)],
+            [ch(["dx1", "dx1"], side(True, u)), ch(["dx1", "dx1"], side(True, side(False, u)))],
+            [{"k": "geo", "g": "wvol", "map": IM}, {"k": "geo", "g": "wvol", "map": M}],
+            [{"k": "geo", "g": "map", "map": Np}, {"k": "geo", "g": "map", "map": N}],
+            [{"k": "geo", "g": "det", "map": M}, fn("det_M")],
+            [{"k": "geo", "g": "map", "map": M}, fn("M")],
+            [{"k": "geo", "g": "wvol", "map": Mm}, fn("wvol_M")],
+        ]
+        chosen = r.sample(groups, r.randint(2, 4))
+        extra = [c for g in chosen for c in g]
+        if r.random() < 0.5:
+            # also inside the kernel (a Tuple does not merge its items)
+            kernel = {"k": "tuple", "items": [kernel] + r.choice(chosen)}
+        return funcs, kernel, extra
+
+
+STREAMS = ["arith", "general", "mixed", "unhygienic", "vector", "pyseq", "geometry", "untranslatable", "geo-collide"]
+WEIGHTS = [0.24, 0.20, 0.08, 0.07, 0.12, 0.06, 0.14, 0.05, 0.04]
 
 
 # ================================================================== tree helpers (independent of the model)
@@ -221,10 +418,26 @@ def is_mixed(ops):
     return any(o in PHYS for o in ops) and any(o in LOG for o in ops)
 
 
+def core(a):
+    """an atom without the interface operators around it"""
+    while a["t"] == "side":
+        a = a["a"]
+    return a
+
+
+def is_fun(a):
+    return core(a)["t"] in ("s", "c")
+
+
+def map_plus(m):
+    return m.get("side") == "plus"
+
+
 def ident(c):
-    """(component, multi-index) of a chain {"ops","atom"}"""
-    a = c["atom"]
-    return ((a["t"], a["name"], a.get("i", -1)), tuple(c["ops"].count(o) for o in PHYS + LOG))
+    """identity of a named object: (atom, multi-index) of a chain {"ops","atom"}; the node itself otherwise"""
+    if "atom" not in c:
+        return ("node", json.dumps({k: v for k, v in c.items() if k not in ("res", "how", "normal")}, sort_keys=True))
+    return (json.dumps(c["atom"], sort_keys=True), tuple(c["ops"].count(o) for o in PHYS + LOG))
 
 
 def tree_chains(t, ctx=()):
@@ -249,6 +462,8 @@ def tree_chains(t, ctx=()):
         for row in t["rows"]:
             for a in row:
                 out += tree_chains(a, ctx + ("matrix",))
+    elif k == "side":
+        out += tree_chains(t["e"], ctx + ("interface-operator",))
     return out
 
 
@@ -264,23 +479,43 @@ def size(t):
         return 1 + sum(size(a) for r in t["rows"] for a in r)
     if k == "chain":
         return 1 + len(t["ops"])
+    if k == "side" or (k == "pb" and "e" in t):
+        return 1 + size(t["e"])
     return 1
 
 
 def node_kinds(t, acc):
-    acc[t["k"]] = acc.get(t["k"], 0) + 1
     k = t["k"]
+    lab = k if k != "geo" else "geo:" + t["g"]
+    if k == "chain" and t["atom"]["t"] in ("side", "m"):
+        lab = "chain/" + ("sided" if t["atom"]["t"] == "side" else "mapping-component")
+    acc[lab] = acc.get(lab, 0) + 1
     for a in t.get("args", []) + t.get("items", []) + ([t["b"], t["e"]] if k == "pow" else []) + \
-            [a for r in t.get("rows", []) for a in r]:
+            [a for r in t.get("rows", []) for a in r] + ([t["e"]] if k in ("side", "pb") and "e" in t else []):
         node_kinds(a, acc)
     return acc
 
 
 # ================================================================== Gallina serialisation
+def coq_map(m):
+    if "iface" in m:
+        return "(MIface %s %s)" % (coq_str(m["iface"][0]), coq_str(m["iface"][1]))
+    return "(MPlain %s %s)" % (coq_str(m["name"]), {None: "SNone", "minus": "SMinus", "plus": "SPlus"}[m.get("side")])
+
+
 def coq_atom(a):
     if a["t"] == "s":
         return "(FScal %s)" % coq_str(a["name"])
+    if a["t"] == "side":
+        return "(FSide %s %s)" % (B(a["plus"]), coq_atom(a["a"]))
+    if a["t"] == "m":
+        return "(FMap %s %d)" % (coq_map(a["map"]), a["i"])
     return "(FComp %s %d)" % (coq_str(a["name"]), a["i"])
+
+
+def coq_gatom(t):
+    m = coq_map(t["map"])
+    return {"map": "(GMap %s)", "wvol": "(GWvol %s)", "det": "(GDet false %s)", "detJ": "(GDet true %s)"}[t["g"]] % m
 
 
 def coq_ops(ops):
@@ -291,6 +526,10 @@ def coq_query(q):
     if q["t"] == "v":
         return "(QVec %s)" % coq_str(q["name"])
     return "(QAtom %s)" % coq_atom(q)
+
+
+def B(x):
+    return "true" if x else "false"
 
 
 def coq_expr(t):
@@ -318,7 +557,34 @@ def coq_expr(t):
     if k == "matrix":
         return "(Mat %s %s)" % ("true" if t["imm"] else "false",
                                 coq_list([coq_list([coq_expr(a) for a in r]) for r in t["rows"]]))
+    if k == "side":
+        return "(Side %s %s)" % (B(t["plus"]), coq_expr(t["e"]))
+    if k == "geo":
+        return "(Geo %s)" % coq_gatom(t)
+    if k == "ibase":
+        return "(IBase %s)" % coq_str(t["name"])
+    if k == "idx":
+        return "(IdxS %s)" % coq_str(t["name"])
+    if k == "imag":
+        return "ImI"
+    if k == "pidx":
+        return "(PIdx %s %s)" % (coq_str(t["base"]), coq_str(t["idx"]))
+    if k == "pb":
+        return "(PB %s %s %s)" % (coq_str(t["name"]), B(t["vector"]), coq_expr(t["e"]))
+    if k == "opaque":
+        return "(Opaque %s)" % B(t["basic"])
     raise ValueError("unserialisable node %r" % (k,))
+
+
+ERRK = {"ValueError": "EValue", "NotImplementedError": "ENotImpl"}
+
+
+def coq_res(r, ok):
+    """an outcome {"ok":..}|{"err":kind} of the implementation as a Gallina [res]; None: an exception the model
+    does not have"""
+    if "ok" in r:
+        return "(Ok %s)" % ok(r["ok"])
+    return "(Err %s)" % ERRK[r["err"]] if r["err"] in ERRK else None
 
 
 def coq_idx3(v):
@@ -341,52 +607,63 @@ def res_enum(r):
     return "ok" if "ok" in r else "err:" + r["err"]
 
 
-def B(x):
-    return "true" if x else "false"
-
-
 def checks_of(ci, res, var):
     """Returns (definitions, [(label, coq boolean, printable model term)]) for one case.
-    var = {"pe","ea","vq"}: which repairs the source of /repo contains (all False = the original code)."""
-    pe, ea, vq = B(var.get("pe")), B(var.get("ea")), B(var.get("vq"))
+    var = {"pe","ea","vq","sq"}: which repairs the source of /repo contains (all False = the original code)."""
+    pe, ea, vq, sq = B(var.get("pe")), B(var.get("ea")), B(var.get("vq")), B(var.get("sq"))
     kname = "k_%d" % ci
     defs = "Definition %s : expr := %s.\n" % (kname, coq_expr(res["kernel"]))
     out = []
     seen = set()
-    for j, n in enumerate(res["true_chains"] + [dict(x["chain"], res=x["res"]) for x in res["names"]]):
-        key = json.dumps([n["ops"], n["atom"]])
+    named = res["true_chains"] + [dict(n["node"], res=n["res"]) for n in res.get("true_atoms", [])] + \
+        [dict(x["chain"], res=x["res"]) for x in res["names"]]
+    for j, n in enumerate(named):
+        key = json.dumps({k: v for k, v in n.items() if k != "res"}, sort_keys=True)
         if key in seen:
             continue
         seen.add(key)
-        term = "chain_name %s %s" % (coq_ops(n["ops"]), coq_atom(n["atom"]))
-        if "ok" in n["res"] and n["res"]["ok"]["name"] is not None:
-            out.append(("name%d" % j, "String.eqb (%s) %s" % (term, coq_str(n["res"]["ok"]["name"])), term))
+        r = n["res"]
+        if "ok" in r and (r["ok"]["name"] is None or not r["ok"]["plain"]):
+            want = None
         else:
-            out.append(("name%d" % j, "false", term))      # the model never refuses a chain
+            want = coq_res(r, lambda o: coq_str(o["name"]))
+        if "atom" in n:
+            term = "chain_name %s %s" % (coq_ops(n["ops"]), coq_atom(n["atom"]))
+            out.append(("name%d" % j, "res_str_eqb (%s) %s" % (term, want) if want else "false", term))
+        elif n["k"] == "geo":
+            term = "gatom_name %s" % coq_gatom(n)
+            out.append(("name%d" % j, "res_str_eqb (Ok (%s)) %s" % (term, want) if want else "false", term))
+        elif n["k"] == "pidx":
+            term = "symbolic_g %s %s" % (pe, coq_expr(n))
+            want = coq_res(r, lambda o: "(Sym %s)" % coq_str(o["name"])) if want else None
+            out.append(("name%d" % j, "res_ac_eqb (%s) %s" % (term, want) if want else "false", term))
     s = res["symbolic"]
+    term = "symbolic_g %s %s" % (pe, kname)
     if "ok" in s:
         if not res.get("_collision"):
-            out.append(("symbolic", "ac_eqb (symbolic_g %s %s) %s" % (pe, kname, coq_expr(s["ok"])), "symbolic_g %s %s" % (pe, kname)))
+            out.append(("symbolic", "res_ac_eqb (%s) (Ok %s)" % (term, coq_expr(s["ok"])), term))
     else:
-        out.append(("symbolic", "false", "symbolic_g %s %s" % (pe, kname)))
+        want = coq_res(s, None)
+        out.append(("symbolic", "res_ac_eqb (%s) %s" % (term, want) if want else "false", term))
     f = res["find"]
     if "ok" in f:
         out.append(("find", "list_beq chain_beq (find_pd_g %s %s) %s" % (ea, kname, coq_list([coq_chain(c) for c in f["ok"]])),
                     "find_pd_g %s %s" % (ea, kname)))
     else:
         out.append(("find", "false", "find_pd_g %s %s" % (ea, kname)))
-    for key, fn in (("max_phys", "get_max_phys_g %s %s" % (ea, vq)), ("max_log", "get_max_log_g %s %s" % (ea, vq))):
+    flags = "%s %s %s" % (ea, vq, sq)
+    for key, fn in (("max_phys", "get_max_phys_g " + flags), ("max_log", "get_max_log_g " + flags)):
         r = res[key]
         want = "(Some %s)" % coq_idx3(r["ok"]) if "ok" in r else ("None" if r["err"] == "AttributeError" else None)
         term = "%s %s None" % (fn, kname)
         out.append((key, "oidx3_beq (%s) %s" % (term, want) if want else "false", term))
     for j, p in enumerate(res["per"]):
         q = coq_query(p["q"])
-        for key, fn in (("max_phys", "get_max_phys_g %s %s" % (ea, vq)), ("max_log", "get_max_log_g %s %s" % (ea, vq))):
+        for key, fn in (("max_phys", "get_max_phys_g " + flags), ("max_log", "get_max_log_g " + flags)):
             r = p[key]
             term = "%s %s (Some %s)" % (fn, kname, q)
             out.append(("%s:%d" % (key, j), "oidx3_beq (%s) (Some %s)" % (term, coq_idx3(r["ok"])) if "ok" in r else "false", term))
-        for key, fn in (("idx_phys", "index_atom_phys_g %s %s" % (ea, vq)), ("idx_log", "index_atom_log_g %s %s" % (ea, vq))):
+        for key, fn in (("idx_phys", "index_atom_phys_g " + flags), ("idx_log", "index_atom_log_g " + flags)):
             r = p[key]
             term = "%s %s %s" % (fn, kname, q)
             out.append(("%s:%d" % (key, j), "list_beq idx3_beq (%s) %s" % (term, coq_list([coq_idx3(v) for v in r["ok"]]))
@@ -407,51 +684,91 @@ def pick_cause(kind, causes, known):
 
 
 def causes_of_pair(c1, c2, collision):
+    """the recorded reasons that alone explain why two named objects do (not) share a symbol"""
     out = []
-    if is_mixed(c1["ops"]) or is_mixed(c2["ops"]):
+    ch1, ch2 = "atom" in c1, "atom" in c2
+    if (ch1 and is_mixed(c1["ops"])) or (ch2 and is_mixed(c2["ops"])):
         out.append("mixed-chain")
-    # only a COLLISION of two different identities can come from the spelling of the function names: one name is
-    # the other one followed by the separator and more (u_x / u, w_0 / w)
-    n1, n2 = c1["atom"]["name"], c2["atom"]["name"]
-    if collision and n1 != n2 and (n1.startswith(n2 + "_") or n2.startswith(n1 + "_")):
-        out.append("unhygienic-name")
+    if not collision:
+        return out
+    if ch1 and ch2:
+        a1, a2 = core(c1["atom"]), core(c2["atom"])
+        same_mi = ident(c1)[1] == ident(c2)[1]
+        if a1 == a2 and same_mi:
+            # the two atoms differ only by the interface operators around them
+            out.append("interface-side")
+        elif a1["t"] == "m" and a2["t"] == "m":
+            if a1["i"] == a2["i"] and map_plus(a1["map"]) == map_plus(a2["map"]) and same_mi:
+                out.append("mapping-name-dropped")
+        elif a1["t"] == "m" or a2["t"] == "m":
+            out.append("coordinate-name")      # a function called like a coordinate
+        else:
+            # only a COLLISION of two different identities can come from the spelling of the function names: one
+            # name is the other one followed by the separator and more (u_x / u, w_0 / w)
+            n1, n2 = a1["name"], a2["name"]
+            if n1 != n2 and (n1.startswith(n2 + "_") or n2.startswith(n1 + "_")):
+                out.append("unhygienic-name")
+        return out
+    kinds = {("chain/m" if core(c["atom"])["t"] == "m" else "chain/f") if "atom" in c else c["k"] for c in (c1, c2)}
+    if "geo" in kinds and kinds <= {"geo", "chain/f", "sym"}:
+        out.append("geometry-name")
+    elif kinds == {"chain/m", "sym"}:
+        out.append("coordinate-name")
     return out
 
 
 def exponent_has_terminal(t, inside=False):
     k = t["k"]
-    if k in ("chain", "vec"):
+    if k in ("chain", "vec", "geo", "pidx"):
         return inside
     if k == "pow":
         return exponent_has_terminal(t["b"], inside) or exponent_has_terminal(t["e"], True)
-    kids = t.get("args", []) + t.get("items", []) + [a for r in t.get("rows", []) for a in r]
+    kids = t.get("args", []) + t.get("items", []) + [a for r in t.get("rows", []) for a in r] + \
+        ([t["e"]] if k in ("side", "pb") and "e" in t else [])
     return any(exponent_has_terminal(a, inside) for a in kids)
 
 
 def q_matches(q, atom):
+    """is a chain over `atom` a chain of the function(s) the query is about?  Overall: every chain over a function
+    or component (chains over mapping components are no derivatives of a function); a function restricted to one
+    side of an interface is still that function."""
+    if not is_fun(atom):
+        return False
     if q is None:
         return True
+    a = core(atom)
     if q["t"] == "v":
-        return atom["t"] == "c" and atom["name"] == q["name"]
-    return (q["t"], q["name"], q.get("i", -1)) == (atom["t"], atom["name"], atom.get("i", -1))
+        return a["t"] == "c" and a["name"] == q["name"]
+    return q == atom or q == a
 
 
 def oracle(case, res, known=None):
     """List of failures {"sig":{...}, "msg":str, "focus":{...}} of C17 on one case's outputs.
     `known(sig)` tells whether a signature is a recorded finding (only used to choose between several sufficient causes)."""
     bad = []
-    # ---- O1: a chain's symbol <-> (component, multi-index)
+    # ---- O1: the symbol of a named object <-> its identity ((component, multi-index) for a chain)
     entries = []
     seen = set()
-    for n in res["true_chains"] + [dict(x["chain"], res=x["res"]) for x in res["names"]]:
-        key = json.dumps([n["ops"], n["atom"]], sort_keys=True)
+    named = res["true_chains"] + [dict(n["node"], res=n["res"]) for n in res.get("true_atoms", [])] + \
+        [dict(x["chain"], res=x["res"]) for x in res["names"]]
+    for n in named:
+        if "atom" not in n and n["k"] not in ("geo", "pidx", "sym"):
+            continue
+        key = json.dumps(ident(n), sort_keys=True) if "atom" not in n else json.dumps([n["ops"], n["atom"]], sort_keys=True)
         if key in seen:
             continue
         seen.add(key)
         r = n["res"]
+        if "atom" in n and core(n["atom"])["t"] == "m" and core(n["atom"])["i"] > 2:
+            # a mapping has at most three components: SymbolicExpr must refuse (ValueError)
+            if r.get("err") != "ValueError":
+                bad.append({"sig": {"kind": "wrong-index-accepted"},
+                            "msg": "SymbolicExpr of %s did not raise ValueError: %s" % (show_named(n), r),
+                            "focus": {"pair": [strip(n)]}})
+            continue
         if "ok" not in r or not r["ok"]["plain"]:
             bad.append({"sig": {"kind": "name-not-symbol"},
-                        "msg": "SymbolicExpr of the chain %s is not a plain Symbol: %s" % (show_chain(n), r),
+                        "msg": "SymbolicExpr of %s is not a plain Symbol: %s" % (show_named(n), r),
                         "focus": {"pair": [strip(n)]}})
             continue
         entries.append((n, r["ok"]["name"]))
@@ -462,16 +779,26 @@ def oracle(case, res, known=None):
             if same_id == same_nm:
                 continue
             kind = "name-collision" if same_nm else "name-split"
-            msg = ("two different (component, multi-index) pairs get the same symbol %r: %s and %s" % (n1, show_chain(c1), show_chain(c2))
+            msg = ("two different objects get the same symbol %r: %s and %s" % (n1, show_named(c1), show_named(c2))
                    if same_nm else
-                   "the same (component, multi-index) gets two symbols %r / %r: %s and %s" % (n1, n2, show_chain(c1), show_chain(c2)))
+                   "the same (component, multi-index) gets two symbols %r / %r: %s and %s" % (n1, n2, show_named(c1), show_named(c2)))
             bad.append({"sig": {"kind": kind, "cause": pick_cause(kind, causes_of_pair(c1, c2, same_nm), known)}, "msg": msg,
                         "focus": {"pair": [strip(c1), strip(c2)]}})
-    # ---- O2: SymbolicExpr(k) is the homomorphic extension of chain -> symbol, nothing terminal is left
+    # ---- O2: SymbolicExpr(k) is the homomorphic extension of named object -> symbol, nothing terminal is left;
+    #          it raises exactly when the kernel contains an object that has no translation
     s = res["subst"]
     if "ok" not in s:
         bad.append({"sig": {"kind": "symbolic-raised", "err": s["err"]}, "msg": "SymbolicExpr(kernel) raised %s" % s["err"],
                     "focus": {}})
+    elif "want_raise" in s["ok"]:
+        w, g = s["ok"]["want_raise"], s["ok"]["got_raise"]
+        if not w:
+            bad.append({"sig": {"kind": "symbolic-raised", "err": g}, "msg": "SymbolicExpr(kernel) raised %s although every object "
+                        "of the kernel has a translation" % g, "focus": {}})
+        elif g not in w:
+            bad.append({"sig": {"kind": "untranslatable-accepted", "err": str(g)},
+                        "msg": "the kernel contains an object without translation (expected %s) but SymbolicExpr(kernel) %s"
+                               % (" / ".join(w), "returned a result" if g is None else "raised " + g), "focus": {}})
     elif not s["ok"]["equal"] or s["ok"]["residual"]:
         cause = "pow-exponent" if exponent_has_terminal(res["kernel"]) else "none"
         bad.append({"sig": {"kind": "symbolic-not-homomorphic", "cause": cause},
@@ -512,7 +839,8 @@ def oracle(case, res, known=None):
             for c in mine:
                 if any(c["ops"].count(o) > r for o, r in zip(ops3, rep["ok"])):
                     ctx = ctxs.get(json.dumps([c["ops"], c["atom"]], sort_keys=True), [])
-                    suff = (["vector-query"] if q is not None and q["t"] == "v" else []) + \
+                    suff = (["interface-side"] if c["atom"]["t"] == "side" and q != c["atom"] else []) + \
+                           (["vector-query"] if q is not None and q["t"] == "v" else []) + \
                            (["mixed-chain"] if is_mixed(c["ops"]) else []) + list(ctx)
                     causes.add(pick_cause("max-under-report", suff, known))
             for cz in sorted(causes):
@@ -521,11 +849,34 @@ def oracle(case, res, known=None):
 
 
 def strip(c):
-    return {"k": "chain", "ops": list(c["ops"]), "atom": dict(c["atom"])}
+    if "atom" not in c:
+        return {k: v for k, v in c.items() if k != "res"}
+    return {"k": "chain", "ops": list(c["ops"]), "atom": copy.deepcopy(c["atom"])}
+
+
+def show_map(m):
+    if "iface" in m:
+        return "InterfaceMapping(%s, %s)" % tuple(m["iface"])
+    return m["name"] + {None: "", "minus": "{minus side}", "plus": "{plus side}"}[m.get("side")]
 
 
 def show_atom(a):
+    if a["t"] == "side":
+        return "%s(%s)" % ("plus" if a["plus"] else "minus", show_atom(a["a"]))
+    if a["t"] == "m":
+        return "%s[%d]" % (show_map(a["map"]), a["i"])
     return a["name"] if a["t"] == "s" else "%s[%d]" % (a["name"], a["i"])
+
+
+def show_named(n):
+    if "atom" in n:
+        return show_chain(n)
+    if n["k"] == "geo":
+        return {"map": "the Mapping %s", "wvol": "SymbolicWeightedVolume(%s)", "det": "SymbolicDeterminant(%s)",
+                "detJ": "det(Jacobian(%s))"}[n["g"]] % show_map(n["map"])
+    if n["k"] == "pidx":
+        return "%s[%s]" % (n["base"], n["idx"])
+    return "Symbol(%r)" % n.get("name")
 
 
 def show_q(q):
@@ -534,6 +885,24 @@ def show_q(q):
 
 def show_chain(c):
     return "".join(o + "(" for o in c["ops"]) + show_atom(c["atom"]) + ")" * len(c["ops"])
+
+
+def py_map(m):
+    if "iface" in m:
+        return "InterfaceMapping(MAP(%r), MAP(%r))" % tuple(m["iface"])
+    if m.get("side"):
+        return "InterfaceMapping(MAP(%r), MAP(%r)).%s" % (m["name"], m["name"], m["side"])
+    return "MAP(%r)" % m["name"]
+
+
+def py_atom(a):
+    if a["t"] == "s":
+        return "F[%r]" % ("s:" + a["name"])
+    if a["t"] == "side":
+        return "%sInterfaceOperator(%s)" % ("Plus" if a["plus"] else "Minus", py_atom(a["a"]))
+    if a["t"] == "m":
+        return "%s[%d]" % (py_map(a["map"]), a["i"])
+    return "F[%r][%d]" % ("v:" + a["name"], a["i"])
 
 
 def py_of(t):
@@ -548,8 +917,7 @@ def py_of(t):
     if k == "vec":
         return "F[%r]" % ("v:" + t["name"])
     if k == "chain":
-        a = t["atom"]
-        s = "F[%r]" % ("s:" + a["name"]) if a["t"] == "s" else "F[%r][%d]" % ("v:" + a["name"], a["i"])
+        s = py_atom(t["atom"])
         for o in reversed(t["ops"]):
             s = "%s(%s%s)" % (o, s, "" if t.get("eval") else ", evaluate=False")
         return s
@@ -566,6 +934,30 @@ def py_of(t):
     if k == "matrix":
         return "%s([%s])" % ("ImmutableDenseMatrix" if t.get("imm") else "Matrix",
                              ", ".join("[" + ", ".join(py_of(a) for a in r) + "]" for r in t["rows"]))
+    if k == "side":
+        return "%sInterfaceOperator(%s)" % ("Plus" if t["plus"] else "Minus", py_of(t["e"]))
+    if k == "geo":
+        m = py_map(t["map"])
+        return {"map": "%s", "wvol": "SymbolicWeightedVolume(%s)", "det": "SymbolicDeterminant(%s)",
+                "detJ": "%s.jacobian.det()"}[t["g"]] % m
+    if k == "ibase":
+        return ("NormalVector(%r)" if t.get("normal") else "IndexedBase(%r)") % t["name"]
+    if k == "idx":
+        return "Idx(%r)" % t["name"]
+    if k == "imag":
+        return "I"
+    if k == "pidx":
+        if t.get("how") == "normal":
+            return "NormalVector(%r)[%s]" % (t["base"], t["idx"])
+        return "IndexedBase(%r)[%s]" % (t["base"], t["idx"] if t.get("how") == "int" else "Idx(%r)" % t["idx"])
+    if k == "pb":
+        return "PullBack(element_of(%sFunctionSpace('X', MAP(%r)(REF), kind=%r), name=%r))" % (
+            "Vector" if t["vector"] else "Scalar", t.get("map", "M"), t.get("kind", "h1"), t["name"])
+    if k == "opaque":
+        return {"bool": "true", "derivative": "Derivative(Function('g')(Symbol('t')), Symbol('t'))", "domain": "D",
+                "str": "'abc'", "none": "None"}.get(t.get("what"), "None")
+    if k == "pynum":
+        return repr(t["v"])
     return "None"
 
 
@@ -576,14 +968,21 @@ def python_replay(case):
              "from sympde.topology import Domain, ScalarFunctionSpace, VectorFunctionSpace, element_of, SymbolicExpr",
              "from sympde.topology import dx, dy, dz, dx1, dx2, dx3",
              "from sympde.topology.derivatives import get_max_partial_derivatives, get_max_logical_partial_derivatives",
+             "from sympde.topology import Mapping, NormalVector, Line, Square, Cube",
+             "from sympde.topology.mapping import InterfaceMapping, SymbolicWeightedVolume, PullBack",
+             "from sympde.calculus.matrices import SymbolicDeterminant",
+             "from sympde.calculus.core import MinusInterfaceOperator, PlusInterfaceOperator",
              "D = Domain('Omega', dim=%d); V = ScalarFunctionSpace('V', D); W = VectorFunctionSpace('W', D)" % case["dim"],
+             "MAPS = {}; MAP = lambda n: MAPS.setdefault(n, Mapping(n, dim=%d)); REF = %s('R')"
+             % (case["dim"], {1: "Line", 2: "Square", 3: "Cube"}[case["dim"]]),
              "F = {}"]
     for f in case["funcs"]:
         lines.append("F[%r] = element_of(%s, name=%r)" % (("v:" if f["vector"] else "s:") + f["name"],
                                                           "W" if f["vector"] else "V", f["name"]))
     lines.append("k = %s" % py_of(case["kernel"]))
     lines.append("print('kernel      :', k)")
-    lines.append("print('SymbolicExpr:', SymbolicExpr(k))")
+    lines.append("try: print('SymbolicExpr:', SymbolicExpr(k))")
+    lines.append("except Exception as e: print('SymbolicExpr raised', type(e).__name__, e)")
     if case["kernel"]["k"] != "seq":
         lines.append("print('max orders  :', get_max_partial_derivatives(k), get_max_logical_partial_derivatives(k))")
     for f in case["funcs"]:
@@ -591,7 +990,8 @@ def python_replay(case):
         lines.append("print('max orders for %s:', get_max_partial_derivatives(k, F[%r]), get_max_logical_partial_derivatives(k, F[%r]))"
                      % (f["name"], key, key))
     for c in case.get("name_chains", []):
-        lines.append("print(%r, '->', SymbolicExpr(%s))" % (show_chain(c), py_of(c)))
+        lines.append("try: print(%r, '->', SymbolicExpr(%s))" % (show_named(c), py_of(c)))
+        lines.append("except Exception as e: print(%r, 'raised', type(e).__name__)" % (show_named(c),))
     return "\n".join(lines)
 
 
@@ -606,6 +1006,8 @@ def kids(t):
         return [("items", i) for i in range(len(t["items"]))]
     if k == "matrix":
         return [("rows", (i, j)) for i, r in enumerate(t["rows"]) for j in range(len(r))]
+    if k == "side" or (k == "pb" and "e" in t):
+        return [("e", None)]
     return []
 
 
@@ -652,6 +1054,8 @@ def tree_reductions(t):
     if k == "chain" and t["ops"]:
         for i in range(len(t["ops"])):
             out.append(dict(t, ops=t["ops"][:i] + t["ops"][i + 1:]))
+    if k == "chain" and t["atom"]["t"] == "side":
+        out.append(dict(t, atom=t["atom"]["a"]))
     if k not in ("num", "chain"):
         out.append({"k": "num", "v": "2"})
     for key in kids(t):
@@ -661,8 +1065,8 @@ def tree_reductions(t):
 
 
 def used_names(t, acc):
-    if t["k"] == "chain":
-        acc.add((t["atom"]["name"], t["atom"]["t"] == "c"))
+    if t["k"] == "chain" and is_fun(t["atom"]):
+        acc.add((core(t["atom"])["name"], core(t["atom"])["t"] == "c"))
     elif t["k"] == "vec":
         acc.add((t["name"], True))
     for key in kids(t):
@@ -673,7 +1077,7 @@ def used_names(t, acc):
 def max_index(t):
     m = 0
     if t["k"] == "chain":
-        m = max([PHYS.index(o) if o in PHYS else LOG.index(o) for o in t["ops"]] + [t["atom"].get("i", 0)])
+        m = max([PHYS.index(o) if o in PHYS else LOG.index(o) for o in t["ops"]] + [min(core(t["atom"]).get("i", 0), 2)])
     for key in kids(t):
         m = max(m, max_index(get_kid(t, key)))
     return m
@@ -687,7 +1091,7 @@ def case_reductions(case):
     for i in range(len(nch)):
         out.append(dict(case, name_chains=nch[:i] + nch[i + 1:]))
         for c2 in tree_reductions(nch[i]):
-            if c2["k"] == "chain":
+            if c2["k"] in ("chain", "geo", "pidx", "sym"):
                 out.append(dict(case, name_chains=nch[:i] + [c2] + nch[i + 1:]))
     used = used_names(case["kernel"], set())
     for c in nch:
@@ -762,8 +1166,8 @@ def main(run, replay=None):
         for i, r in zip(idxs, res["results"]):
             results[i] = r
         variant = variant or res.get("variant")
-    variant = variant or {"pe": None, "ea": None, "vq": None}
-    if any(variant.get(k) is None for k in ("pe", "ea", "vq")):
+    variant = variant or {"pe": None, "ea": None, "vq": None, "sq": None}
+    if any(variant.get(k) is None for k in ("pe", "ea", "vq", "sq")):
         run.report({"kind": "source-shape"}, "the source of SymbolicExpr.eval / find_partial_derivatives / get_index_*_derivatives_atom "
                    "has a shape the variant reader does not recognise (fail-closed; the model of the original code is used)",
                    {"variant": variant}, found_input=False, theorem_or_case="C17 model-variant reader (tools/impl/C17_impl.py source_variant)")
@@ -788,9 +1192,10 @@ def main(run, replay=None):
         # SymbolicExpr maps two different chain objects of this kernel to one symbol: sympy then merges the
         # arguments (2*u_xy, u_xy**2, 0), so the tree comparison is left to the substitution oracle
         nm = {}
-        for c in res["true_chains"]:
+        for c in res["true_chains"] + [dict(n["node"], res=n["res"]) for n in res.get("true_atoms", [])]:
             if "ok" in c["res"]:
-                nm.setdefault(c["res"]["ok"]["name"], set()).add(json.dumps([c["ops"], c["atom"]], sort_keys=True))
+                nm.setdefault(c["res"]["ok"]["name"], set()).add(
+                    json.dumps([c["ops"], c["atom"]] if "atom" in c else ident(c), sort_keys=True))
         res["_collision"] = any(len(v) > 1 for v in nm.values())
 
     # ---- correspondence, decided inside Coq
@@ -912,9 +1317,16 @@ def main(run, replay=None):
         ids = set()
         for c in res["true_chains"] + [x["chain"] for x in res["names"]]:
             nchains += 1
+            if "atom" not in c:
+                kd = "no chain: " + (c["k"] if c["k"] != "geo" else "geo:" + c["g"])
+                h_kind[kd] = h_kind.get(kd, 0) + 1
+                continue
             h_order[str(len(c["ops"]))] = h_order.get(str(len(c["ops"])), 0) + 1
             kd = "bare" if not c["ops"] else "mixed" if is_mixed(c["ops"]) else "physical" if c["ops"][0] in PHYS else "logical"
-            kd += "/" + ("component" if c["atom"]["t"] == "c" else "scalar")
+            a = core(c["atom"])
+            kd += "/" + ("component" if a["t"] == "c" else "mapping-component" if a["t"] == "m" else "scalar")
+            if c["atom"]["t"] == "side":
+                kd += "/one side of an interface"
             h_kind[kd] = h_kind.get(kd, 0) + 1
         for c in res["true_chains"]:
             if c["ops"]:
@@ -939,7 +1351,8 @@ def main(run, replay=None):
         "degenerate_kernels_not_evaluated": len(degenerate),
         "model_variant_read_from_source": {"symbolic_translates_exponent": variant.get("pe"),
                                            "find_enters_every_subexpression": variant.get("ea"),
-                                           "vector_function_query": variant.get("vq")},
+                                           "vector_function_query": variant.get("vq"),
+                                           "sided_atom_query": variant.get("sq")},
         "chains_named": nchains,
         "traces_validated_against_impl": agree,
         "model_impl_disagreements": len(disagree),
